@@ -332,7 +332,14 @@ class C22(Mode):
         if owner == name:
             return 'own-object'
         E = self.E
-        how = op[2] % 4
+        how = op[2] % 6
+        if how >= 4:
+            # the foreign object's collection is loaded on its behalf (len / iteration).  Only while it is not loaded:
+            # reading what the owner has loaded already is the known finding of how=1 (attribute access does not test
+            # who owns the session)
+            sd = obj._vals_.get(E.Acct.items) if obj._vals_ is not None else None
+            if sd is not None and sd.is_fully_loaded:
+                return 'collection-already-loaded'
         self.probe('cross_thread_use')
         try:
             if how == 0:
@@ -346,8 +353,12 @@ class C22(Mode):
                 obj.bal = old
             elif how == 2:
                 E.Item(acct=obj, tag='x')
-            else:
+            elif how == 3:
                 obj.items.add(E.Item.select().first())
+            elif how == 4:
+                len(obj.items)
+            else:
+                list(obj.items)
         except (core.TransactionError, core.DatabaseSessionIsOver) as e:
             return 'raised:TransactionError'
         except Exception as e:
